@@ -4,7 +4,7 @@ import BigtoolsModel.CheckedBed
 import BigtoolsModel.FileOf
 import BigtoolsModel.FileOfBed
 import BigtoolsModel.WriterSections
-import BigtoolsModel.AtomsGen
+import BigtoolsModel.AtomsCut
 /-! # C09 — every written file is a well-formed BBI file for an independent decoder
 
 Property theorems (statements copied from the lemma modules, proofs by those lemmas). -/
